@@ -320,7 +320,7 @@ PROPS["C20"] = {
     "corr_modules": ["E4C"],
     "suites": [("e4", "bind", ["debug"]), ("e4", "idle", ["debug"]), ("e4", "alpn", ["debug"]), ("e4", "reload", ["debug"])],
     "technique": PROOF_TECH,
-    "level_text": "theorems: the bind presets map to the documented (address, IPV6_V6ONLY) table; an idle timeout is applied exactly in milliseconds iff representable (< 2^62 ms) and refused otherwise; tie: every preset and explicit address bound for real on both roles with reachability over IPv4/IPv6 loopback, idle timeouts at the representability boundary, observed idle expiry and keep-alive, ALPN refusal, reload_config with and without rebind",
+    "level_text": "theorems: the bind presets map to the documented (address, IPV6_V6ONLY) table; an idle timeout is applied exactly in milliseconds iff representable (< 2^62 ms) and refused otherwise; for every chain of transport setter calls build() holds what the last call of each setter asked for, setters of different fields commute and an unrepresentable idle timeout anywhere yields no configuration; tie: every preset and explicit address bound for real on both roles with reachability over IPv4/IPv6 loopback, idle timeouts at the representability boundary, observed idle expiry and keep-alive, ALPN refusal, reload_config with and without rebind",
     "level_note": TLS_NOTE,
     "design_ref": "DESIGN.md 5 (C20)",
     "trusted_base": ["OS socket layer, quinn timers, rustls ALPN negotiation (observed)"],
